@@ -3,22 +3,35 @@ import os
 
 PROPERTIES = ['C14', 'C02']
 BOUNDS = {
-    'quick': 'types {u,i}{8,16,32,64}; every argument symbolic over the full range of its type (all pairs for binary functions, rotation '
-             'count over all of int, bit positions < width); cmp_*/in_range/saturate_cast for all 64 ordered type pairs; ipow exponent 0..8 '
-             '(compile-time bases 2, 3, 10: every exponent whose result is representable); gcd/lcm all pairs for the 8-bit x 8-bit and '
-             '8-bit x 16-bit type pairs (unwind 14+), and for every width the slices (x,x), (x,0), (0,x), (x,1), (1,x); '
-             'midpoint(T*, T*) inside a 7-element array; hton/ntoh for char, (u)int8_t, uint16_t, uint32_t',
-    'thorough': 'as quick, ipow exponent 0..16, and gcd/lcm uint16_t x uint16_t split 256 ways on the high byte of the first operand (unwind 25, 900 s per slice); '
-                'gcd/lcm for general 32/64-bit pairs are outside the bound',
+    'quick': 'types {u,i}{8,16,32,64}; every argument symbolic over the full range of its type (all pairs of values for binary functions, rotation count over '
+             'all of int, bit positions < width). Full width for all 4 unsigned types: popcount (+fallback), countl/countr_zero/one, bit_width, bit_ceil, bit_floor, '
+             'has_single_bit, rotl, rotr, set/reset/flip/test_bit (run-time position and compile-time positions 0 and width-1), byteswap_fallback; for all 8 types: '
+             'byteswap, add_sat (+fallback), midpoint, midpoint(T*, T*) inside a 7-element array, abs, ilog2, ipow<2|3|10>(e) for every e with a representable result, '
+             'ipow(b, e) with e symbolic in 0..8, div_sat and idiv (int32_t: one query per operand-sign case; int64_t: only the same-sign cases pp and nn). '
+             'cmp_equal..cmp_greater_equal, in_range, saturate_cast: all 64 ordered type pairs. gcd/lcm over all pairs of values for (u8,u8) and (i8,i8) (definition and '
+             'std::gcd/std::lcm), gcd for (u8,i8), (i8,u8), (u8,u16) with |n| <= 255 (Euclid unwound 15/18); gcd(0, n) and gcd(m, 0) for all 64 ordered type pairs; at every width the slices gcd(x,x), gcd/lcm of (x,0), (0,x), (x,1), (1,x) and '
+             '(2^a, 2^b); lcm(x,x) 8-bit only. hton/ntoh: char, int8_t, uint8_t, uint16_t, uint32_t',
+    'thorough': 'as quick, plus: ipow exponent 0..16; pointer midpoint inside a 33-element array; div_sat/idiv int64_t mixed-sign cases (np, pn; 3000 s budget); lcm for (u8,i8), '
+                '(i8,u8), (u8,u16); gcd for (u8,i16), (i8,u16), (i8,i16) with |n| within the range of the first type; lcm(x,x) 16-bit. Outside the bound: gcd/lcm over all pairs for 16-bit x 16-bit and wider (one of the 256 '
+                'high-byte slices of uint16_t gcd: no verdict in 900 s, so the split planned in DESIGN.md is not run), gcd (u16,u8) (no verdict in 400 s), lcm(x,x) for 32/64 bits '
+                '(no verdict in 1200 s)',
 }
 ASSUMPTIONS = [
     'C14: documented domains assumed: bit_ceil result representable; set/reset/flip/test_bit pos < width; div_sat/idiv divisor != 0 and idiv not (min, -1); '
-    'abs argument != min; ipow exponent >= 0 and result representable (then no intermediate product overflows); ilog2 argument >= 1; '
-    'gcd/lcm: |m|, |n| and the lcm representable in the common type (std::gcd/std::lcm preconditions)',
-    'C14: the kernel TU is compiled with -Wno-everything; without it clang rejects etl::bit_ceil<uint8_t/uint16_t> (narrowing in braces, bit_ceil.hpp:35) - reported separately',
+    'abs argument != min; ipow exponent >= 0 and (signed and 8/16-bit types) no intermediate product overflows, which for |b| >= 2 is the same as a representable result '
+    '(32/64-bit unsigned: compared modulo 2^W); ilog2 argument >= 1; gcd/lcm: |m|, |n| and the lcm representable in the common type (std::gcd/std::lcm preconditions)',
+    'C14: oracles: bit functions = predicates over the result (e.g. countl_zero r: x >> (W-1-r) == 1) plus std <bit>; add_sat/saturate_cast/midpoint/abs/cmp_*/in_range = '
+    '__int128 arithmetic (plus std::midpoint, std::cmp_*, std::in_range); quotients = multiplicative definition |x| == |q||y| + rho, 0 <= rho < |y|, sign rule, '
+    'rem == x - q*y; ipow = e successive wrapping multiplications with an overflow flag per step (it is the definition, and the only form a solver can relate to the '
+    'kernel: 32/64-bit instances are decided by z3 on the exported VC); gcd = divides both and >= every symbolic common divisor; lcm = positive common multiple <= every '
+    'symbolic representable common multiple. div_sat, add_sat, saturate_cast, byteswap, ipow, ilog2, idiv have no std counterpart in C++20 libstdc++-12, so no second oracle',
+    'C14: the kernel TU is compiled with -Wno-everything; without it clang rejects etl::bit_ceil<uint8_t/uint16_t> (narrowing inside braces, bit_ceil.hpp:35) - reported separately',
     'C14: code under test is the clang configuration (popcount/byteswap/add_sat take the __builtin_* branch); the portable fallbacks detail::popcount_fallback, '
     'detail::byteswap_fallback and detail::add_sat_fallback are called directly as well; llvm.ctpop/bswap/fsh*/add.sat are modelled by the reference loops of engine/ll_rt_common.h',
-    'C14: quotient/remainder oracles use the C operators / and % in a wider type (64-bit: same width), i.e. CBMC division semantics are trusted',
+    'C14: translated with ll2c --divrem-narrow (signed division at operand width with the MIN / -1 case made explicit; x % y directly after x / y computed as x - (x / y) * y); '
+    'CBMC division semantics are trusted; an over-wide shift (poison in LLVM) evaluates to 0 in the model, source-level shift UB is left to the C02 build of the same queries',
+    'C14/C02: while the findings C14_gcd_negative, C14_gcd_mixed_narrowing, C14_lcm_zero_zero, C14_lcm_negative, C14_lcm_intermediate_overflow are open their input regions are '
+    'excluded from the gcd/lcm queries; C02 runs skip the mixed-signedness gcd pairs (etl::gcd<int8_t, uint8_t>(-6, 4) recurses forever - stack overflow natively - which the UB instrumentation does not model)',
 ]
 
 # translator option (engine/ll2c.py): signed division at the operand width, and x % y right after x / y reuses the quotient
@@ -87,12 +100,12 @@ def queries(tier, prop='C14'):
         add('ipow', t, emax + 2, solver='minisat' if w < 32 else 'z3', budget=120 if quick else 600)
         add('ipow_wit', t, emax + 2, solver='minisat' if w < 32 else 'kissat')
         for (nu, tyu, su, wu) in TYPES:
-            for e in ('cmp', 'in_range', 'sat_cast'):
-                add('%s_%s' % (e, nu), t, 4)
+            for e in ('cmp', 'in_range', 'sat_cast', 'gcd_zero'):
+                add('%s_%s' % (e, nu), t, 5)
     # gcd / lcm over all pairs of values (Euclid: at most 12 remainder steps for 8-bit operands, one more when the first operand is wider)
     def pair(e, tn, un, unwind, budget=120):
         if ub and BYNAME[tn][2] != BYNAME[un][2]:
-            return   # C02: mixed signedness is inside the C14 gcd regions (can loop forever, which is not UB); checked under C14 only
+            return   # C02: mixed signedness is inside the C14 gcd regions (can recurse forever); checked under C14 only
         add('%s_%s' % (e, un), BYNAME[tn], unwind, solver='kissat', budget=budget)
     for tn, un in (('u8', 'u8'), ('i8', 'i8')):
         pair('gcd', tn, un, 15); pair('lcm', tn, un, 15); pair('gcd_std', tn, un, 20); pair('lcm_std', tn, un, 20)
